@@ -299,3 +299,7 @@ mod test {
         assert_eq!(now, deserialized);
     }
 }
+
+#[cfg(kani)]
+#[path = "/verif/kani/crux_time.rs"]
+mod verif_kani;
